@@ -128,7 +128,7 @@ type cev struct {
 	p    H
 }
 
-var evKinds = []string{"deliver", "dup", "timeout", "stale", "reset", "tx", "newtx", "sync", "perm", "restart", "byz", "inj", "skip", "hold", "tick", "txpool", "sweep", "twin", "endcheck"}
+var evKinds = []string{"deliver", "dup", "timeout", "stale", "reset", "tx", "newtx", "sync", "perm", "restart", "byz", "inj", "skip", "hold", "tick", "txpool", "sweep", "twin", "endcheck", "epochs", "detcheck"}
 
 func compact(e Event) cev {
 	return cev{uint8(slices.Index(evKinds, e.K)), uint8(e.N), int32(e.A), int32(e.B), e.P}
@@ -260,6 +260,9 @@ func (x *Explorer) dfs(path []Event, w *World, budget int) {
 				x.res.Done++
 			} else {
 				x.res.Stuck++
+			}
+			if x.onTerminal != nil {
+				x.onTerminal(w, path)
 			}
 			if x.sc.Oracle != "" && !w.done() {
 				w.endCheck()
